@@ -302,10 +302,15 @@ class RangeV(object):
 
 
 class SymSeq(object):
-    """abstract sequence of strings with symbolic length: z3 Seq(String)"""
+    """abstract sequence of strings with symbolic length, encoded without the
+    z3 sequence sort: `length` is a z3 Int, `at(i)` gives the i-th element
+    term (an uninterpreted function application); `base` identifies the
+    sequence in spec functions."""
 
-    def __init__(self, t, origin=None):
-        self.t = t
+    def __init__(self, length, at, base, origin=None):
+        self.length = length
+        self.at = at
+        self.base = base
         self.origin = origin
 
 
